@@ -104,6 +104,27 @@ func (r *operationManager) markAsVerified() {
 	r.shouldVerifyQuorum = true
 }
 
+// pendingLinearizableOperations returns the linearizable read-only operations that
+// are waiting for the leadership of this node to be verified.
+func (r *operationManager) pendingLinearizableOperations() []*Operation {
+	operations := make([]*Operation, 0, len(r.pendingReadOnly))
+	for operation := range r.pendingReadOnly {
+		if operation.OperationType == LinearizableReadOnly && !operation.quorumVerified {
+			operations = append(operations, operation)
+		}
+	}
+	return operations
+}
+
+// markOperationsAsVerified marks the provided operations as verified and allows
+// another round of heartbeats to be started for the operations that are still unverified.
+func (r *operationManager) markOperationsAsVerified(operations []*Operation) {
+	for _, operation := range operations {
+		operation.quorumVerified = true
+	}
+	r.shouldVerifyQuorum = true
+}
+
 func (r *operationManager) appliableReadOnlyOperations(
 	applyIndex uint64,
 ) map[*Operation]chan Result[OperationResponse] {
